@@ -1169,6 +1169,27 @@ class World(object):
                "transports": [c.transport for c in rec.caps], "sizes": [repr(c.size_tuple()) for c in rec.caps],
                "line_events": rec.line_events, "spontaneous": spontaneous,
                "wrapper_name": getattr(P, "wrapper_name", None)}
+        # accuracy of the REAL solver's own answers (same rule as O-PRIMAL): a status other than "optimal", or a Gram
+        # matrix that is not positive semidefinite to 1e-6, means the solver's tolerance on this problem is worse
+        # than the tolerances the value-comparison clauses use
+        acc = True
+        for c_ in rec.caps:
+            a_ = getattr(c_, "answer", None)
+            if a_ is None:
+                continue
+            if getattr(a_, "status", "optimal") != "optimal":
+                acc = False
+            G_ = getattr(a_, "G", None)
+            if G_ is not None:
+                try:
+                    import numpy as _np
+                    ev_ = _np.linalg.eigvalsh((_np.asarray(G_, dtype=float) + _np.asarray(G_, dtype=float).T) / 2)
+                    out["gram_min_eig"] = float(ev_.min())
+                    if ev_.size and ev_.min() < -1e-6 * (1.0 + abs(ev_.max())):
+                        acc = False
+                except Exception:
+                    pass
+        out["accurate"] = acc
         if self.opts.get("dump_seam"):
             out["seam"] = [{"transport": c.transport, "sense": c.sense, "obj": list(c.obj_sig) if c.obj_sig else None,
                             "rows": [[r["sense"], list(r["sig"])] for r in c.rows],
